@@ -23,6 +23,8 @@ type Config struct {
 	LoadSlow  int    `json:"load_slow,omitempty"`  // extra yields inside the loader
 	Faults    bool   `json:"faults"`               // false: fault-free stratum
 	NS        bool   `json:"ns,omitempty"`         // compile with CompileWithNS({x: urn:x, y: urn:y}) instead of Compile
+	NSSwap    bool   `json:"ns_swap,omitempty"`    // with NS: bind x->urn:y and y->urn:x instead of x->urn:x, y->urn:y
+	NSRebind  bool   `json:"ns_rebind,omitempty"`  // compile every expression once, then re-bind the prefixes in the same map object before the tasks start
 	Pristine  bool   `json:"pristine,omitempty"`   // also compute every reference outcome in a pristine child process
 }
 
@@ -106,7 +108,7 @@ func genDocs(r *Rng, maxNodes int) []DocSpec {
 }
 
 func baseCfg(r *Rng) Config {
-	c := Config{CacheCap: -1, PoolMode: r.Intn(2), Faults: !r.Chance(1, 4), NS: r.Chance(1, 5), Pristine: r.Chance(1, 100)}
+	c := Config{CacheCap: -1, PoolMode: r.Intn(2), Faults: !r.Chance(1, 4), NS: r.Chance(1, 5), NSSwap: r.Chance(1, 2), Pristine: r.Chance(1, 100)}
 	if r.Chance(1, 3) {
 		c.CacheCap = []int{0, 1, 2, 3, 5}[r.Intn(5)]
 	}
@@ -155,6 +157,9 @@ func GenC04(seed, run uint64, ok CompileOK) *Scenario {
 	s.Docs = genDocs(r, r.Range(4, 26))
 	g := NewGen(r)
 	g.UseDocs(s.Docs)
+	if r.Chance(1, 4) {
+		g.FocusFn = r.Pick(FocusFuncs) // swarm: a run about one function fed context-dependent arguments
+	}
 	s.Exprs = genExprs(g, r.Range(1, 5), ok, func() (*E, bool, bool) { return g.Top(), false, false })
 	nsteps := r.Range(6, 60)
 	w := []int{r.Range(2, 8), r.Range(2, 10), r.Range(4, 14), r.Range(0, 3), r.Range(1, 5), 0, 0}
@@ -401,6 +406,24 @@ func GenC16H(seed, run uint64) *Scenario {
 	}
 	keys := genKeys(r)
 	s.Steps = genCacheOps(r, r.Range(5, 60), keys, s.Cfg.Faults)
+	// a small document whose element names double as patterns, for predicates
+	// whose pattern comes from the context node: //*[matches(@k, local-name())]
+	doc := DocSpec{}
+	top := &NodeSpec{K: "e", N: "r"}
+	for n := r.Range(2, 6); n > 0; n-- {
+		e := &NodeSpec{K: "e", N: r.Pick([]string{"a", "b", "ab", "c", "ba", "d"})}
+		if r.Chance(4, 5) {
+			e.A = append(e.A, [2]string{"k", genSubject(r)})
+		}
+		top.C = append(top.C, e)
+	}
+	doc.C = []*NodeSpec{top}
+	s.Docs = []DocSpec{doc}
+	for n := r.Weighted([]int{2, 3, 2}); n > 0; n-- {
+		at := r.Intn(len(s.Steps) + 1)
+		st := Step{Op: "matchnodes", N: r.Intn(3)}
+		s.Steps = append(s.Steps[:at:at], append([]Step{st}, s.Steps[at:]...)...)
+	}
 	if s.Cfg.Faults {
 		// cache-swap mid-run
 		for k := r.Weighted([]int{3, 2, 1}); k > 0 && len(s.Steps) > 0; k-- {
@@ -475,11 +498,15 @@ func GenC05(seed, run uint64, ok CompileOK) *Scenario {
 			return &E{Op: "fn", S: "matches", Kids: []*E{subj, pat}}, false, false
 		})
 	} else {
+		if r.Chance(1, 5) {
+			g.FocusFn = r.Pick(FocusFuncs)
+		}
 		s.Exprs = genExprs(g, r.Range(1, 4), ok, func() (*E, bool, bool) { return g.Top(), false, false })
 	}
 	compileStorm := r.Chance(1, 6) // a run about concurrent Compile / CompileWithNS calls only
 	if compileStorm {
 		s.Cfg.NS = r.Chance(1, 2)
+		s.Cfg.NSRebind = s.Cfg.NS && r.Chance(1, 2)
 	}
 	nt := r.Range(2, 4)
 	// tasks collide on purpose: a "hot" (expression, document, context) that
